@@ -22,7 +22,8 @@ PROPS["C17"] = dict(
          "result code 500; late and foreign answers), creators funded generously or with 0-400 stake (auto-pause) and "
          "topped up; stream main: values m*10^e, |m| < 10^9, e in -11..6; stream extreme: exactly representable "
          "+-m*2^k (k in -40..900) and tiny literals, max/min and (since round 3) avg with the exact-rational model inside the guard band; non-trivial = on some feed >= 2 batches stored a value "
-         "and its latest-history is smaller than the number of values produced; distinct = by hash of the history; "
+         "and its latest-history is smaller than the number of values produced; distinct = by hash of the history; one history in three spells the two feeds eth/ethusd, ab/a or btc-usd/btc (one name a proper "
+         "prefix of the other; both feeds driven equally, so both hold values while the shorter one is queried, completed and shrunk); "
          "all streams: the price service is asked about a feed (or an unknown one) at random points; stream price: as main, plus blocks "
          "200-320 s apart (half of them 280-305 s) each followed by a price request, so that the newest value ages to just below / exactly / "
          "beyond 5 minutes of block time",
